@@ -100,6 +100,21 @@ CHECKS = {
              "arbitrary bytecodes (asynchronous signals are not modelled).",
         technique="exhaustive fault-point enumeration (every boundary crossing x fault kind, sequences of <=2) with differential probe oracle",
         design="3/C11"),
+    "C12": dict(
+        text="Stateless schedule exploration of the real code. asyncio: real Tasks on a virtual event loop (no selector, virtual "
+             "clock); at every loop step every choice among the ready handles is explored (all interleavings) for 2-3 concurrent "
+             "contracted calls (same async function with passing/violating arguments, same method on one / two objects) with "
+             "suspension points in coroutine preconditions, captures, postconditions and bodies, under four context-inheritance "
+             "modes (fresh; copied after the parent's completed / violating checked call; parent participating). Threads: real "
+             "threads under a baton scheduler with iterative preemption bounding 0..2; scheduling points at entries into user "
+             "code (G1) and, via sys.settrace, at every line of the wrapper frames (G2) or of any _checkers.py frame (G3, bound 1); "
+             "contexts empty / copy_context().run copied before / after the parent's first checked call. Oracle: each call's "
+             "verdict and own event log equal those of the same call run alone in a fresh context; no deadlock.",
+        note="Trusted: CPython (GIL; line-granular preemption is the finest modelled), asyncio.Task semantics, the schedulers "
+             "(first schedule replayed twice, divergence on prefix replay is a hard error). Caps are reported: exhaustive=false "
+             "when a scenario hits its schedule budget.",
+        technique="stateless model checking of schedules (all task interleavings; preemption-bounded thread interleavings) on the real implementation",
+        design="3/C12"),
     "C16": dict(
         text="Exhaustive exploration of family F (all kinds, sync/async, plain/DBC chains of <=3 classes, own and inherited "
              "stacks of pre/post/snapshot/invariant, two decorator layouts, foreign functools.wraps decorators at top/middle/"
